@@ -191,9 +191,9 @@ EXTRA = {
     "C14": " A same-settings-same-result memo and a fixed set of canary parses (re-run after every history) catch state left behind in the process.",
     "C15": " Further operations: shared Config objects, dry-run-first tracts, one object parsed with one-off overrides and then plainly; a second sub-check runs canary parses after any parse of any text.",
     "C17": " A history sub-check interleaves sorts (string, list of keys, list led by a function) with growth and replacement of the same container.",
-    "C18": " An independence sub-check builds a container from another one (constructor, copy, +, from_multiple, slice, *, *=) and mutates either side.",
-    "C19": " Writers are reached through the TractList and the PLSSDesc; write() is handed six kinds of argument.",
-    "C16": " The dead-space and connective atoms are also pumped under each optional parse mode; the widest documented lot and section ranges are repeated.",
+    "C18": " An independence sub-check builds a container from another one (constructor, copy, +, from_multiple, slice, *, *=) and mutates either side; from_multiple is also given one list object several times.",
+    "C19": " Writers are reached through the TractList and the PLSSDesc; write() is handed eight kinds of argument (also the same object twice); iterators are consumed side by side.",
+    "C16": " The dead-space and connective atoms are also pumped under each optional parse mode; the widest documented lot and section ranges are repeated; a short_shapes sub-check times every vocabulary token and a list of rare short forms (degenerate ranges, zero, boundary calls, empty brackets) in eight frames.",
     "C12": " Every edited string also goes through the setter and class-level entry points, equality / hash after normalisation is checked, the dict handed out by trs_to_dict may be changed by the caller, and empty input is enumerated over 15 entry points.",
 }
 
